@@ -233,10 +233,11 @@ other(
     assumptions=["list.sort() yields an ascending permutation", "os.listdir lists each entry once", "pathspec.match_file depends only on (patterns, path string)"],
     technique=PYVC + " for the per-directory kernel of the traversal; bounded relational runs (same tree, different location / enumeration order) with byte comparison",
 )
-other("C16", "Proved: _media_hash_xml_element writes size = str(file_size) whenever the model has a size - including 0 - and "
+other("C16", "Proved: the manifest name carries strftime(now(timezone.utc)) (ground obligation); _media_hash_xml_element writes size = str(file_size) whenever the model has a size - including 0 - and "
       "lastmodificationdate / hashdate = iso(date) exactly when present. Bounded: datetime_isostring (library glue; assumed contract) and "
       "the capture of size / mtime in the command loops: sizes and ISO-8601 dates of written manifests against the file system under "
       "16-26 TZ settings incl. DST switches in both hemispheres and the repeated hour.",
+      static=True,
       assumptions=["datetime / time zone database: naive.astimezone() attaches the offset in force at that local time (fold-aware)"])
 other("C17", "Proved: find_hash_entry_for_format, find_first_hash_entry_for_path (used to match renamed files). Bounded: the rename "
       "matching region of create -dr and the follow-up commands on all sets of simultaneous renames / moves.")
